@@ -321,7 +321,7 @@ def asyncio_runner(chk):
         grew = False
         for fis in cls.methods.values():
             for g in fis:
-                if g in close_fns or not g.is_async:
+                if g in close_fns or g.name.startswith("__"):
                     continue
                 users = [h for hs in cls.methods.values() for h in hs for n in ast.walk(h.node) if isinstance(n, ast.Attribute) and n.attr == g.name and util.dotted(n) == "self." + g.name]
                 if users and all(h in close_fns for h in users):
@@ -391,7 +391,7 @@ def asyncio_runner(chk):
                         stmt="close-domain-stale-snapshot",
                     )
                     ok = False
-            it = Interp(prog, loop_fn, unroll=1)
+            it = Interp(prog, loop_fn, unroll=1, inline=lambda f_, ct: (f_ in close_fns and f_ is not loop_fn) or (f_.cls is None and f_.module is loop_fn.module and f_.name.startswith("_")))
             p = Path()
             outs2 = it.exec_block([f], p)
             seen = set()
